@@ -27,7 +27,7 @@ VARIANTS = [
     ({"PYTHONHASHSEED": "1"}, {"sym_offset": 1000}),
     ({"PYTHONHASHSEED": "0"}, {"sym_boundary": 1}),
     ({"PYTHONHASHSEED": "12345"}, {"prior_procs": 3, "extra_defs": "before", "sym_boundary": 2}),
-    ({"PYTHONHASHSEED": "random"}, {"sym_offset": 1, "extra_defs": "after"}),
+    ({"PYTHONHASHSEED": "random"}, {"sym_offset": 1, "extra_defs": "after", "compile_history": 1}),
     ({"PYTHONHASHSEED": "987654321"}, {"sym_offset": 37, "prior_procs": 1}),
     ({"PYTHONHASHSEED": "random"}, {"extra_defs": "before", "sym_offset": 5}),
 ]
@@ -113,10 +113,29 @@ def root(A: f32[64, 64]):
     return GenProgram(HEADER + body, "root", ["sub"], [], {"template": "replace_sum", "op_sequence": ["replace", "simplify"], "prefer_ops": ["replace", "std.replace_all"]})
 
 
+def t_size_div(rng):
+    """index arithmetic whose C form (plain / and % or the floor helpers) depends on the range the
+    compiler derives for a size argument from the assertions; relatives of the procedure with a
+    stronger assertion share the argument's symbol"""
+    c = rng.choice([2, 4])
+    off = rng.choice([4, 8])
+    cfg = rng.random() < 0.4
+    head = "@config\nclass Cfg:\n    k: index\n\n" if cfg else ""
+    use = "    Cfg.k = 1\n" if cfg else ""
+    body = f"""{head}@proc
+def root(n: size, x: f32[n + 24]):
+    assert n <= 32
+{use}    for i in seq(0, n):
+        x[(n - {off}) / {c} + {off // c + 1}] += 1.0
+        x[(n + i - {off}) % {off} + 8] = 2.0
+"""
+    return GenProgram(HEADER + body, "root", [], ["Cfg"] if cfg else [], {"template": "size_div", "prefer_ops": ["simplify", "divide_loop", "unroll_loop"]})
+
+
 def _template(rng):
     from ..templates import any_template
 
-    return rng.choice([t_same_name_sum, t_same_name_sum, t_replace_sum, t_replace_sum, t_two_precisions, any_template, any_template])(rng)
+    return rng.choice([t_same_name_sum, t_same_name_sum, t_replace_sum, t_replace_sum, t_two_precisions, t_size_div, t_size_div, any_template, any_template])(rng)
 
 
 def record_sessions(ctx, n, script_len):
